@@ -25,7 +25,8 @@ StepLine(e)  ==
        LET st == e.strokes[i] IN
        /\ Report(e.case, StrokeObsFails(e.s, e.e, e.pts, st), [s |-> e.s, e |-> e.e, w |-> st[1], n |-> Len(st[2])])
        /\ DriftThick(e, st)
-StepPanic(e) == e.ev = "panic"      \* totality is C08's business; counted by the recorder, no verdict
+\* a library call of this case panicked: the property promises a result for every input of its domain
+StepPanic(e) == e.ev = "panic" /\ Report(e.case, {"library_call_panicked"}, [msg |-> e.msg, loc |-> e.loc])
 Next == /\ l <= NRec
         /\ LET e == Rec[l] IN StepCase(e) \/ StepLine(e) \/ StepPanic(e)
         /\ l' = l + 1
